@@ -5,10 +5,10 @@ import PdModel.Proto
 * `line <u:line>`                       → `ok <u:name> <u:typ> <prio> <u:location> <u:display>` | `ValueError` | `IndexError`
 * `parse <u:base> <u:payload>`          → `<ok|IndexError> | <links> | <log>`
 * `strip <b:hex>`                       → `b:<hex>` (the bytes handed to zlib)
-* `session (U <u:url> <N|b:hex> <Z|D|T:u:text>)* (Q <u:name>)*`
-      successive `update` calls on one `SphinxInventory`, the zlib/UTF-8 outcome of each given
-      by the caller (Z = zlib.error, D = UnicodeError, T = decoded text), then `getLink` queries
-                                        → `<b:payload>:<ok|IndexError> … | <links> | <log> | <answers>`
+* `session (U <u:url> <N|b:hex> <Z|D|T:u:text> | Q <u:name>)*`
+      `update` and `getLink` calls on one `SphinxInventory`, in the given order; the zlib/UTF-8
+      outcome of each update is given by the caller (Z = zlib.error, D = UnicodeError, T = decoded text)
+                                        → `(<b:payload>:<ok|Exc> | q=<answer>)… | <links> | <log>`
 * `header <u:project> <u:version>`     → `b:<hex>` (the bytes of `_generateHeader`)
 * `gen <forest>`                        → `ok <u:content> | <unknown-type names>` | `AssertionError`
 * `roundtrip <u:base> <forest>`         → content, links of parse(content), log, visible objects, getLink per object
@@ -97,31 +97,38 @@ def parseZ (tok : String) : Option ZRes :=
 def parseData (tok : String) : Option (Option Bytes) :=
   if tok == "N" then some none else (decodeBytes tok).map some
 
-/-- run the `U …` items then the `Q …` items -/
-def session : Nat → List String → State → List String → Option String
-  | 0, _, _, _ => none
-  | _, [], st, outs =>
-    some (" ".intercalate outs.reverse ++ " | " ++ showLinks st.links ++ " | " ++ showLog st.log ++ " | -")
-  | f+1, "U" :: u :: d :: z :: rest, st, outs => do
+/-- parse `U <url> <data> <z>` and `Q <name>` items, in any order, into model steps (with, for each
+update, the text shown for the payload handed to zlib) -/
+def parseSteps : Nat → List String → Option (List (Step × String))
+  | 0, _ => none
+  | _, [] => some []
+  | f+1, "U" :: u :: d :: z :: rest => do
     let url ← Proto.decodeStr u
     let data ← parseData d
     let zr ← parseZ z
     let unzip : Bytes → Option Bytes := fun _ => match zr with | .zerr => none | _ => some []
     let decode : Bytes → Option Str := fun _ => match zr with | .text t => some t | _ => none
-    let (st', r) := update unzip decode pyInt st url data
-    let shown := (match data with
+    let shown := match data with
       | some (b :: bs) => if (rsplitSlash url).isSome then encodeBytes (strippedPayload (b :: bs)) else "-"
-      | _ => "-") ++ ":" ++ (match r with | .ok _ => "ok" | .raised e => showErr e)
-    session f rest st' (shown :: outs)
-  | _, toks, st, outs =>
-    if toks.all (fun t => t == "Q" || t.startsWith "u:") then
-      let names := toks.filter (· != "Q")
-      match names.mapM Proto.decodeStr with
-      | none => none
-      | some ns =>
-        some (" ".intercalate outs.reverse ++ " | " ++ showLinks st.links ++ " | " ++ showLog st.log ++ " | " ++
-          (if ns.isEmpty then "-" else " ".intercalate (ns.map fun n => showOpt (getLink st.links n))))
-    else none
+      | _ => "-"
+    let more ← parseSteps f rest
+    some ((.upd unzip decode url data, shown) :: more)
+  | f+1, "Q" :: n :: rest => do
+    let name ← Proto.decodeStr n
+    let more ← parseSteps f rest
+    some ((.ask name, "") :: more)
+  | _, _ => none
+
+/-- run the calls on one reader (the model's `runSteps`), one output item per call -/
+def session (toks : List String) : Option String := do
+  let items ← parseSteps (toks.length + 1) toks
+  let (st, results) := runSteps pyInt ⟨[], []⟩ (items.map (·.1))
+  let outs := (items.zip results).map fun ((_, shown), r) =>
+    match r with
+    | .inl (.ok _) => shown ++ ":ok"
+    | .inl (.raised e) => shown ++ ":" ++ showErr e
+    | .inr ans => "q=" ++ showOpt ans
+  some ((if outs.isEmpty then "-" else " ".intercalate outs) ++ " | " ++ showLinks st.links ++ " | " ++ showLog st.log)
 
 def showObjs (os : List Obj) : String :=
   if os.isEmpty then "-" else
@@ -154,7 +161,7 @@ def handle (args : List String) : String :=
     | some project, some version => encodeBytes (encodeUtf8 (headerText project version))
     | _, _ => "bad-op"
   | "session" :: toks =>
-    (session (toks.length + 2) toks ⟨[], []⟩ []).getD "bad-op"
+    (session toks).getD "bad-op"
   | "gen" :: toks =>
     match parseForest (toks.length + 1) toks with
     | none => "bad-op"
